@@ -17,6 +17,25 @@ class ImplRaised(Exception):
         self.exc = exc
 
 
+_POOL = None
+
+
+def pool(active):
+    """start a new iteration of a monitor: when active, all calls of this iteration that would construct a fresh model
+    for the same (kind, parameters) go through ONE model object instead (nothing may be remembered between calls)"""
+    global _POOL
+    _POOL = {} if active else None
+
+
+def _model_for(kind, st):
+    if _POOL is None:
+        return make_model(kind, st)
+    key = (kind, repr(sorted(st.items())))
+    if key not in _POOL:
+        _POOL[key] = make_model(kind, st)
+    return _POOL[key]
+
+
 def nums_of(teams_val):
     """[(mu, sigma)] per team from a ("L", [("L", [("R", ...)])]) value"""
     return [[(p[2], p[3]) for p in t[1]] for t in teams_val[1]]
@@ -38,7 +57,7 @@ def call_rate(kind, st, teams, ranks=OMIT, scores=OMIT, tau=OMIT, lim=OMIT, mode
     """teams: a value or nums.  Returns (result nums, result objects, passed objects, model)"""
     if not (isinstance(teams, tuple) and teams and teams[0] == "L"):
         teams = teams_val(kind, teams)
-    m = model if model is not None else make_model(kind, st)
+    m = model if model is not None else _model_for(kind, st)
     objs = to_python(teams)
     kw = {}
     for nm, v in (("ranks", ranks), ("scores", scores), ("tau", tau), ("limit_sigma", lim)):
@@ -60,7 +79,7 @@ def call_predict(op, kind, st, teams, model=None, share=False, alias=None):
     """alias: list of (j, i): position j holds the very same list object as position i"""
     if not (isinstance(teams, tuple) and teams and teams[0] == "L"):
         teams = teams_val(kind, teams)
-    m = model if model is not None else make_model(kind, st)
+    m = model if model is not None else _model_for(kind, st)
     objs = to_python(teams, share={} if share else None)
     for j, i in (alias or []):
         objs[j] = objs[i]
